@@ -479,9 +479,74 @@ func ruleClosedEnums(c *Ctx) {
 	c.Check(okMS && len(callsIn(mlc, false, allOf)) > 0, rule, "constraints in "+fnName(mlc), "every constraint must match (AllOf … MatchStore)", P.pos(mlc.Pos()), "")
 }
 
+// ruleFitInputs: what the search works on. Every peer of the region becomes a
+// candidate (a peer dropped here is in no rule and not an orphan either), and a
+// rule's fit carries the isolation score of exactly the peers selected for it,
+// however many they are (partial fits are compared with each other).
+func ruleFitInputs(c *Ctx) {
+	P := c.P
+	rule := c.Prop + "/fit-inputs"
+	const pl = "server/schedule/placement"
+	nw := P.Func(pl, "newFitWorker")
+	getPeers := F(P.Method("server/core", "RegionInfo", "GetPeers"))
+	c.saw(fnName(nw))
+	isAppend := func(x ssa.Instruction) bool {
+		cl, ok := x.(*ssa.Call)
+		if !ok {
+			return false
+		}
+		b, isB := cl.Call.Value.(*ssa.Builtin)
+		return isB && b.Name() == "append"
+	}
+	found, every := false, false
+	for _, l := range loopsOf(nw) {
+		// the loop that ranges over region.GetPeers()
+		ranges := false
+		for b := range l.blocks {
+			for _, ins := range b.Instrs {
+				if u, ok := ins.(*ssa.UnOp); ok && u.Op == token.MUL {
+					if ia, ok := u.X.(*ssa.IndexAddr); ok && derivesFrom(ia.X, resultOfCall(getPeers), 3) {
+						ranges = true
+					}
+				}
+			}
+		}
+		if ranges {
+			found = true
+			every = everyIterationCalls(l, isAppend)
+		}
+	}
+	c.Check(found && every, rule, "peer loop in "+fnName(nw), "every peer of the region is appended to the candidate list — no iteration skips", P.pos(nw.Pos()), "")
+	// newRuleFit: IsolationScore = isolationScore(selected peers, rule labels), on every path
+	nr := P.Func(pl, "newRuleFit")
+	iso := F(P.Func(pl, "isolationScore"))
+	score := P.Field(pl, "RuleFit", "IsolationScore")
+	var peersParam ssa.Value
+	for _, p := range nr.Params {
+		if isSliceType(p.Type()) {
+			peersParam = p
+		}
+	}
+	filled := &calledEv{name: "IsolationScore = isolationScore(selected peers, …)", match: func(x ssa.Instruction) bool {
+		st, ok := x.(*ssa.Store)
+		if !ok || fieldOfAddr(st.Addr) != score {
+			return false
+		}
+		cl, _ := callOf(st.Val)
+		if cl == nil || !iso.Match(cl.Common()) {
+			return false
+		}
+		a := callArgs(cl.Common())
+		return len(a) >= 1 && peersParam != nil && sameVal(a[0], peersParam)
+	}}
+	c.need(rule, nr, "return", func(x ssa.Instruction) bool { _, ok := x.(*ssa.Return); return ok }, []Ev{filled}, all,
+		"a rule fit always carries the isolation score of the peers selected for it, filled or not")
+}
+
 func init() {
 	register("C12", "Rule fitting partitions peers correctly and picks the best assignment", func(c *Ctx) {
 		c.Group("C12/comparator", "compareRuleFit orders by (peers ↑, role mismatches ↓, isolation ↑), antisymmetric; CompareRegionFit compares rule by rule then fewer orphans", func() { ruleFitComparators(c) })
+		c.Group("C12/fit-inputs", "every region peer is a candidate; every rule fit carries the isolation score of its selected peers", func() { ruleFitInputs(c) })
 		c.Group("C12/search-state", "enumeration marks/unmarks candidates in every iteration; a better fit clears later fits before re-searching; candidates satisfy constraints ∧ loose role ∧ unselected; orphans are exactly the unselected peers", func() { ruleFitSearchDiscipline(c) })
 		c.Group("C12/satisfied", "satisfied ⇔ count filled with matching roles for every rule and no orphan", func() { ruleSatisfiedAtoms(c) })
 		c.Group("C12/closed-enums", "role and operator switches handle every constant; label matching handles nil stores, exclusive labels and every constraint", func() { ruleClosedEnums(c) })
